@@ -21,7 +21,7 @@ ID = 'C12'
 LEVEL = 'model_checking'
 RULE = ('all histories of <=L loader events over a 5-theory scratch library (a <- b <- {c,d} <- e): load(T), load(T, limit first / '
         'middle / missing / start), edit(T) with later or EARLIER mtime, load(T) interrupted by a fault at the first / last parsed '
-        'item, cycle on/off; after every load that returns, the dump of theory.thy (types, constants, theorems, attributes, '
+        'item, cycle on/off, reimport(T) = the file rewritten with a different import list; after every load that returns, the dump of theory.thy (types, constants, theorems, attributes, '
         'overloads) is compared with the dump of a history-free load of the same files; loads that must fail (cycle, missing limit) '
         'must raise. Real library: [import M; load T] and [load T; load T] histories in fresh processes vs a fresh [load T]. '
         'states = histories executed, transitions = events executed.')
@@ -31,6 +31,8 @@ ASSUMPTIONS = ['history-free reference = same loader with its module-level cache
 
 THEORIES = ['a', 'b', 'c', 'd', 'e']
 IMPORTS = {'a': [], 'b': ['a'], 'c': ['b'], 'd': ['b'], 'e': ['c', 'd']}
+# 'reimport' events rewrite a file with another import list (no cycle): c loses b (its item c_imp mentions c_b), e loses d
+ALT_IMPORTS = {'c': ['a'], 'e': ['c']}
 
 
 def bounds(tier):
@@ -48,6 +50,8 @@ def content(T, version):
     if T != 'a':
         # uses a constant of an imported theory
         items.insert(3, {'ty': 'thm.ax', 'name': '%s_imp' % T, 'prop': 'c_%s ⟶ c_%s' % (IMPORTS[T][0], T), 'vars': {}})
+    if T == 'e':
+        items.insert(4, {'ty': 'thm.ax', 'name': 'e_imp_d', 'prop': 'c_d ⟶ c_e', 'vars': {}})
     if version == 1:
         items.insert(2, {'ty': 'def.ax', 'name': 'new_%s' % T, 'type': 'bool ⇒ bool'})
         items.append({'ty': 'thm.ax', 'name': '%s_new_ax' % T, 'prop': 'new_%s c_%s' % (T, T), 'vars': {}})
@@ -64,6 +68,7 @@ class Library:
         self.version = {T: 0 for T in THEORIES}
         self.mtime = {T: 1000000000 + 100 * i for i, T in enumerate(THEORIES)}
         self.cycle = False
+        self.alt = {T: False for T in ALT_IMPORTS}
         for T in THEORIES:
             self.write(T)
 
@@ -72,6 +77,8 @@ class Library:
 
     def write(self, T):
         imports = list(IMPORTS[T])
+        if self.alt.get(T):
+            imports = list(ALT_IMPORTS[T])
         if self.cycle and T == 'a':
             imports = ['e']
         data = {'name': T, 'description': 'scratch', 'imports': imports, 'content': content(T, self.version[T])}
@@ -80,7 +87,7 @@ class Library:
         os.utime(self.path(T), (self.mtime[T], self.mtime[T]))
 
     def state_key(self):
-        return (tuple(sorted(self.version.items())), self.cycle)
+        return (tuple(sorted(self.version.items())), self.cycle, tuple(sorted(self.alt.items())))
 
     def remove(self):
         shutil.rmtree(self.root, ignore_errors=True)
@@ -204,6 +211,8 @@ def menu():
             evs.append(('fault', T, k))
     evs.append(('cycle_on',))
     evs.append(('cycle_off',))
+    for T in ('c', 'e'):
+        evs.append(('reimport', T))
     return evs
 
 
@@ -254,6 +263,12 @@ def apply_event(ev, lib):
             do_load(T, None, lib)
         finally:
             items.parse_item = orig
+        return None
+    if k == 'reimport':
+        T = ev[1]
+        lib.alt[T] = not lib.alt[T]
+        lib.mtime[T] += 10
+        lib.write(T)
         return None
     if k == 'cycle_on':
         lib.cycle = True
